@@ -105,8 +105,14 @@ impl World {
         }
         let listen: SocketAddr = format!("127.0.0.1:{}", client_port).parse()?;
         let (listener, socket) = rt.block_on(async {
-            // give the server a moment to bind
-            tokio::time::sleep(Duration::from_millis(60)).await;
+            // wait until the server listens (however busy the machine is)
+            for _ in 0..400 {
+                if TcpStream::connect(("127.0.0.1", server_port)).await.is_ok() {
+                    break;
+                }
+                tokio::time::sleep(Duration::from_millis(25)).await;
+            }
+            tokio::time::sleep(Duration::from_millis(40)).await;
             let l = TcpListener::bind(listen).await?;
             let u = if udp { Some(UdpSocket::bind(listen).await?) } else { None };
             anyhow::Ok((l, u))
@@ -151,7 +157,16 @@ impl World {
             }
             "start" => {
                 self.tasks[0] = self.rt.spawn(sv::startup(self.scfg.clone()));
-                self.rt.block_on(async { tokio::time::sleep(Duration::from_millis(80)).await });
+                let sp = self.server_port;
+                self.rt.block_on(async {
+                    for _ in 0..400 {
+                        if TcpStream::connect(("127.0.0.1", sp)).await.is_ok() {
+                            break;
+                        }
+                        tokio::time::sleep(Duration::from_millis(25)).await;
+                    }
+                    tokio::time::sleep(Duration::from_millis(40)).await;
+                });
                 "ok".to_owned()
             }
             _ => "bad-op".to_owned(),
@@ -386,6 +401,7 @@ impl Drop for World {
 
 
 const PROMPT: Duration = Duration::from_millis(2500);
+const PATIENCE: Duration = Duration::from_secs(8);
 
 /// one TCP flow through client and server to a scripted target; returns a canonical observation:
 /// where the server dialled, what arrived on each side, who saw end-of-stream, and whether the end
@@ -404,6 +420,9 @@ pub async fn tcp_flow(client_port: u16, sc: TcpScript, links: Arc<std::sync::Mut
     let host = if target == "unresolvable" { "no-such-host.invalid".to_owned() } else { host };
     let total_up: usize = up.iter().map(|c| c.len()).sum();
     let plain_http = kind == "http";
+    // plain http: the request itself is forwarded in front of the body
+    let preamble: Vec<u8> = if plain_http { format!("POST http://{}:{}/upload HTTP/1.1\r\nHost: {}:{}\r\nContent-Length: {}\r\n\r\n", host, tport, host, tport, total_up).into_bytes() } else { Vec::new() };
+    let total_up = total_up + preamble.len();
     #[derive(Default, Clone)]
     struct Seen {
         got: Vec<u8>,
@@ -415,15 +434,18 @@ pub async fn tcp_flow(client_port: u16, sc: TcpScript, links: Arc<std::sync::Mut
     let seen2 = seen.clone();
     let down2 = down.clone();
     let wait_for = if cut_after.is_some() || reset_app { usize::MAX } else { total_up };
+    let accepted = Arc::new(std::sync::atomic::AtomicBool::new(false));
+    let accepted2 = accepted.clone();
     let target_task = tokio::spawn(async move {
         let Some(listener) = listener else { return false };
-        let Ok(Ok((mut t, _))) = tokio::time::timeout(Duration::from_secs(4), listener.accept()).await else { return false };
+        let Ok(Ok((mut t, _))) = tokio::time::timeout(PATIENCE, listener.accept()).await else { return false };
+        accepted2.store(true, std::sync::atomic::Ordering::SeqCst);
         let mut buf = vec![0u8; 65536];
         loop {
-            if !plain_http && seen2.lock().await.got.len() >= wait_for {
+            if seen2.lock().await.got.len() >= wait_for {
                 break;
             }
-            match tokio::time::timeout(Duration::from_millis(if plain_http { 400 } else { 4000 }), t.read(&mut buf)).await {
+            match tokio::time::timeout(Duration::from_millis(6000), t.read(&mut buf)).await {
                 Ok(Ok(0)) => {
                     let mut s = seen2.lock().await;
                     s.eof = true;
@@ -452,10 +474,10 @@ pub async fn tcp_flow(client_port: u16, sc: TcpScript, links: Arc<std::sync::Mut
             let _ = t.shutdown().await;
             seen2.lock().await.closed_at = Some(std::time::Instant::now());
             // keep the read side until the flow is over
-            let _ = tokio::time::timeout(Duration::from_secs(4), t.read(&mut buf)).await;
+            let _ = tokio::time::timeout(PATIENCE, t.read(&mut buf)).await;
         } else {
             loop {
-                match tokio::time::timeout(Duration::from_secs(4), t.read(&mut buf)).await {
+                match tokio::time::timeout(PATIENCE, t.read(&mut buf)).await {
                     Ok(Ok(0)) => {
                         let mut s = seen2.lock().await;
                         s.eof = true;
@@ -471,12 +493,11 @@ pub async fn tcp_flow(client_port: u16, sc: TcpScript, links: Arc<std::sync::Mut
     });
     let Ok(mut app) = TcpStream::connect(("127.0.0.1", client_port)).await else { return "client-refused".to_owned() };
     let _ = app.set_nodelay(true);
-    let mut preamble = Vec::new();
     match kind.as_str() {
         "socks5" => {
             let _ = app.write_all(&[5, 1, 0]).await;
             let mut b = [0u8; 2];
-            if !matches!(tokio::time::timeout(Duration::from_secs(3), app.read_exact(&mut b)).await, Ok(Ok(_))) {
+            if !matches!(tokio::time::timeout(PATIENCE, app.read_exact(&mut b)).await, Ok(Ok(_))) {
                 return "handshake-failed".to_owned();
             }
             let mut req = vec![5u8, 1, 0];
@@ -490,19 +511,18 @@ pub async fn tcp_flow(client_port: u16, sc: TcpScript, links: Arc<std::sync::Mut
             req.extend_from_slice(&tport.to_be_bytes());
             let _ = app.write_all(&req).await;
             let mut b = [0u8; 10];
-            if !matches!(tokio::time::timeout(Duration::from_secs(3), app.read_exact(&mut b)).await, Ok(Ok(_))) {
+            if !matches!(tokio::time::timeout(PATIENCE, app.read_exact(&mut b)).await, Ok(Ok(_))) {
                 return "handshake-failed".to_owned();
             }
         }
         "connect" => {
             let _ = app.write_all(format!("CONNECT {}:{} HTTP/1.1\r\nHost: {}:{}\r\n\r\n", host, tport, host, tport).as_bytes()).await;
             let mut b = [0u8; 39];
-            if !matches!(tokio::time::timeout(Duration::from_secs(3), app.read_exact(&mut b)).await, Ok(Ok(_))) {
+            if !matches!(tokio::time::timeout(PATIENCE, app.read_exact(&mut b)).await, Ok(Ok(_))) {
                 return "handshake-failed".to_owned();
             }
         }
         _ => {
-            preamble = format!("POST http://{}:{}/upload HTTP/1.1\r\nHost: {}:{}\r\nContent-Length: {}\r\n\r\n", host, tport, host, tport, total_up).into_bytes();
             let _ = app.write_all(&preamble).await;
         }
     }
@@ -554,7 +574,7 @@ pub async fn tcp_flow(client_port: u16, sc: TcpScript, links: Arc<std::sync::Mut
         let _ = app.set_linger(Some(Duration::from_secs(0)));
         let closed = std::time::Instant::now();
         drop(app);
-        let dialed = tokio::time::timeout(Duration::from_secs(6), target_task).await.ok().and_then(|r| r.ok()).unwrap_or(false);
+        let dialed = tokio::time::timeout(PATIENCE + Duration::from_secs(4), target_task).await.ok().and_then(|r| r.ok()).unwrap_or(false);
         let s = seen.lock().await.clone();
         let want_up: Vec<u8> = [preamble, up.concat()].concat();
         return format!("dialed={} up={} end={} prompt={}", dialed as u8, if s.got == want_up { "ok" } else { "diff" }, s.eof as u8, s.eof_at.map(|t| (t.saturating_duration_since(closed) < PROMPT) as u8).unwrap_or(0));
@@ -569,7 +589,7 @@ pub async fn tcp_flow(client_port: u16, sc: TcpScript, links: Arc<std::sync::Mut
     } else if !target_closes_first && target == "up" && cut_after.is_none() && !reset_target {
         // read the answer, then close first
         while got_down.len() < down.len() {
-            match tokio::time::timeout(Duration::from_secs(4), app.read(&mut buf)).await {
+            match tokio::time::timeout(PATIENCE, app.read(&mut buf)).await {
                 Ok(Ok(0)) => {
                     eof = true;
                     eof_at = Some(std::time::Instant::now());
@@ -584,7 +604,7 @@ pub async fn tcp_flow(client_port: u16, sc: TcpScript, links: Arc<std::sync::Mut
     }
     if !eof {
         loop {
-            match tokio::time::timeout(Duration::from_secs(4), app.read(&mut buf)).await {
+            match tokio::time::timeout(PATIENCE, app.read(&mut buf)).await {
                 Ok(Ok(0)) | Ok(Err(_)) => {
                     eof = true;
                     eof_at = Some(std::time::Instant::now());
@@ -595,7 +615,14 @@ pub async fn tcp_flow(client_port: u16, sc: TcpScript, links: Arc<std::sync::Mut
             }
         }
     }
-    let dialed = tokio::time::timeout(Duration::from_secs(6), target_task).await.ok().and_then(|r| r.ok()).unwrap_or(false);
+    // the application's side is over: a target that has not even been dialled by now will not be
+    if !accepted.load(std::sync::atomic::Ordering::SeqCst) {
+        tokio::time::sleep(Duration::from_millis(300)).await;
+        if !accepted.load(std::sync::atomic::Ordering::SeqCst) {
+            target_task.abort();
+        }
+    }
+    let dialed = tokio::time::timeout(PATIENCE + Duration::from_secs(4), target_task).await.ok().and_then(|r| r.ok()).unwrap_or(false);
     let s = seen.lock().await.clone();
     let want_up: Vec<u8> = [preamble, up.concat()].concat();
     let within = |a: Option<std::time::Instant>, b: Option<std::time::Instant>| match (a, b) {
